@@ -53,11 +53,11 @@ var (
 // --------------------------------------------------------------- generator
 
 type pkgGen struct {
-	r    *Rand
-	valN int
-	fpN  int
-	prN  int
-	lex  []string
+	r     *Rand
+	valN  int
+	fpN   int
+	prN   int
+	lex   []string
 	noDef int // >0 while generating a let init: no defun/defmacro there (closure capture of the let's own scope is a lexical-scoping matter, not C08's)
 }
 
